@@ -1,0 +1,121 @@
+//go:build verif
+
+// Contracts for the deductive checks in /verif (comment-only). Syntax: /verif/DESIGN.md 2.3.
+// Scope: dotenv/env.go, dotenv/godotenv.go, dotenv/format.go (+ parser.go helpers that had no contract).
+
+// Inactive clauses are written `//@?` and are always placed directly after the `func` / `nopanic` / `loop`
+// line of their block (never after an active requires/ensures/invariant): the govc snapshot treats an
+// unknown line that follows a clause as a continuation of that clause and would corrupt it.
+
+package dotenv
+
+// GetEnvFromFile: `envMap` is captured by the lookup closure, so go/ssa turns it into a heap cell; the engine
+// havocs that cell at the (transitively dynamic) call to ParseWithLookup and resolves the spec name `envMap`
+// to the map first stored in the cell, not to the cell's current content. Nothing about envMap survives the
+// call, hence the inactive clauses (and the unproved nilmap obligation at env.go:71).
+//@ func GetEnvFromFile
+//@   nopanic[C01,C17]
+//@   ensures[C17] err == nil ==> result.0 != nil && fresh(result.0)
+//@?  ensures[C17] forall k string :: has(currentEnv, k) <==> old(has(currentEnv, k))                 // the project environment passed in is only read
+//@?  ensures[C17] forall k string :: old(has(currentEnv, k)) ==> currentEnv[k] == old(currentEnv[k])
+//@   loop 2
+//@     invariant[C17] forall k string :: seen(k) ==> has(envMap, k) && envMap[k] == env[k]          // later file over earlier: every key of the file just parsed overwrites
+
+//@ func GetEnvFromFile$1
+//@   nopanic[C01,C17]
+//@   ensures[C17] has(currentEnv, k) ==> result.1 && result.0 == currentEnv[k]
+//@   ensures[C17] !has(currentEnv, k) ==> (result.1 <==> has(envMap, k))
+//@   ensures[C17] !has(currentEnv, k) && has(envMap, k) ==> result.0 == envMap[k]
+
+//@ func RegisterFormat
+//@   nopanic[C01]
+//@   requires p != nil
+//@   ensures has(formats, format) && formats[format] == p
+//@   ensures forall k string :: k != format ==> (has(formats, k) <==> old(has(formats, k)))
+//@   ensures forall k string :: k != format && old(has(formats, k)) ==> formats[k] == old(formats[k])
+
+//@ func ParseWithFormat
+//@   nopanic[C01,C16]
+//@   requires forall f string :: has(formats, f) ==> formats[f] != nil
+//@   ensures[C16] !old(has(formats, format)) ==> err != nil && result.0 == nil
+
+//@ func Parse
+//@   nopanic[C01,C18]
+//@   ensures[C18] err == nil ==> result.0 != nil
+
+//@ func ParseWithLookup
+//@   nopanic[C01,C18]
+//@   ensures[C18] err == nil ==> result.0 != nil
+//@?  ensures[C18] err == nil ==> !has(result.0, "")   // see locateKeyName/ensures (empty key), recorded there
+
+//@ func Load
+//@   nopanic[C01]
+
+//@ func load
+//@   nopanic[C01]
+
+//@ func ReadWithLookup
+//@   nopanic[C01,C18]
+//@   ensures[C18] result.0 != nil
+//@   loop 1
+//@     invariant envMap != nil
+//@   loop 2
+//@     invariant envMap != nil
+
+//@ func Read
+//@   nopanic[C01,C18]
+
+//@ func UnmarshalBytesWithLookup
+//@   nopanic[C01,C18]
+//@   ensures[C18] result.0 != nil
+
+//@ func filenamesOrDefault
+//@   nopanic[C01]
+//@   ensures len(result) >= 1
+//@   ensures len(filenames) >= 1 ==> result == filenames
+
+//@ func loadFile
+//@   nopanic[C01,C18]
+
+//@ func ReadFile
+//@   nopanic[C01,C18]
+//@   ensures[C18] err == nil ==> result.0 != nil
+
+//@ func expandVariables
+//@   nopanic[C01,C18]
+//@   requires lookupFn != nil
+
+// lookupOk/lookupVal stand for the two results of applying a LookupFn to a key. The engine has no term for
+// "the result of calling a function value": a dynamic call returns fresh unconstrained values, so the two
+// clauses that state "lookup function first, earlier lines second" cannot be linked to the body.
+//@ spec lookupOk(f ref, k string) bool
+//@ spec lookupVal(f ref, k string) string
+
+//@ func expandVariables$1
+//@   nopanic[C01,C18]
+//@?  ensures[C18] lookupOk(lookupFn, k) ==> result.1 && result.0 == lookupVal(lookupFn, k)
+//@?  ensures[C18] !lookupOk(lookupFn, k) ==> (result.1 <==> has(envMap, k)) && (has(envMap, k) ==> result.0 == envMap[k])
+//@   requires lookupFn != nil
+//@   ensures[C18] !result.1 ==> !has(envMap, k)
+//@   ensures[C18] has(envMap, k) ==> result.1
+
+//@ func init$1
+//@   nopanic[C01,C18]
+//@   ensures[C18] !result.1 && result.0 == ""
+
+//@ func expandEscapes
+//@   nopanic[C01,C18]
+
+//@ func expandEscapes$1
+//@   nopanic[C01,C18]
+
+//@ func indexOfNonSpaceChar$1
+//@   nopanic[C01,C18]
+//@   requires p != nil
+
+//@ func isCharFunc
+//@   nopanic[C01,C18]
+
+//@ func isCharFunc$1
+//@   nopanic[C01,C18]
+//@   ensures[C18] result <==> v == char
